@@ -200,7 +200,9 @@ def main(argv=None):
     known_hit = {}
     harness_errors = []
     replayed = 0
+    seen = set()
     os.makedirs(os.path.join(VERIF, "replays"), exist_ok=True)
+    todo = []  # (result, cx, path)
     for r in results:
         c = r["case"]
         if not r.get("ok"):
@@ -215,36 +217,48 @@ def main(argv=None):
                 )
             r["twin_ok"] = bool(cexs)
             continue
-        seen = set()
+        cand_seen = set()
         for cx in cexs:
+            d = cx.get("detail")
+            cand = (d.get("fp") if isinstance(d, dict) else None) or cx["message"]
+            if cand in cand_seen:  # one replay per (case, candidate fingerprint)
+                continue
+            cand_seen.add(cand)
             rp = {"property": prop, "case": c, "args": cx["args"], "message": cx["message"],
                   "detail": cx.get("detail")}
             h = hashlib.sha1(json.dumps(rp, sort_keys=True, default=str).encode()).hexdigest()[:12]
             path = os.path.join(VERIF, "replays", f"{prop}-{h}.json")
             with open(path, "w") as f:
                 json.dump(rp, f, indent=1, default=str)
-            out = do_replay(path)
-            replayed += 1
-            cx["replay"] = out
-            cx["replay_path"] = path
-            if not out["reproduced"]:
-                harness_errors.append(
-                    f"{c['id']}: candidate counterexample did not reproduce concretely "
-                    f"({cx['message']}; args={cx['args']}): {out['info'][:500]}"
-                )
-                continue
-            fp = out["fp"] or f"{c['id']}:{cx['message']}"
-            if fp in seen:
-                continue
-            seen.add(fp)
-            if fp in open_fps:
-                known_hit.setdefault(fp, path)
-                try:
-                    os.remove(path)
-                except OSError:
-                    pass
-            else:
-                violations.append((fp, path, out["info"]))
+            todo.append((r, cx, path))
+    from concurrent.futures import ThreadPoolExecutor
+
+    with ThreadPoolExecutor(max_workers=max(1, a.j)) as tp:
+        outs = list(tp.map(lambda t: do_replay(t[2]), todo))
+    for (r, cx, path), out in zip(todo, outs):
+        c = r["case"]
+        replayed += 1
+        cx["replay"] = out
+        cx["replay_path"] = path
+        if not out["reproduced"]:
+            harness_errors.append(
+                f"{c['id']}: candidate counterexample did not reproduce concretely "
+                f"({cx['message']}; args={cx['args']}): {out['info'][:500]}"
+            )
+            continue
+        fp = out["fp"] or f"{c['id']}:{cx['message']}"
+        if fp in seen or fp in open_fps:
+            try:
+                os.remove(path)
+            except OSError:
+                pass
+        if fp in seen:
+            continue
+        seen.add(fp)
+        if fp in open_fps:
+            known_hit.setdefault(fp, path)
+        else:
+            violations.append((fp, path, out["info"]))
 
     for fp, path in sorted(known_hit.items()):
         print(f"KNOWN-FINDING: property={prop} {open_fps[fp]['what']} [fingerprint {fp}]")
